@@ -4,6 +4,8 @@
 Each catalogue entry is a small textual edit of a scratch copy of /repo (never /repo itself):
   kind = "break":   the edit breaks a property; the named rule must report the named construct
   kind = "benign":  a behaviour-preserving edit; the named properties must stay silent (exit 0)
+An entry may start from a patch file (the refactorings under seeded/refactors, written by independent
+sub-agents): alone it is a benign entry; followed by edits it is a break planted in refactored code.
 Scratch copies live under $TMPDIR (default /tmp) and are removed as soon as analysed.
 Usage: run.py [--only NAME_SUBSTR] [--prop Cxx] [-j N]
 Exit 0 if every entry behaved as expected, 2 otherwise (a self-test failure means the checker is
@@ -25,6 +27,10 @@ def run_one(entry):
     copy = os.path.join(tmp, "repo")
     try:
         shutil.copytree(REPO, copy, ignore=shutil.ignore_patterns(".git", "test-data", "*.dcm"))
+        if entry.get("patch"):
+            r = subprocess.run(["patch", "-p1", "-s", "-i", os.path.join(VERIF, entry["patch"])], cwd=copy, capture_output=True, text=True)
+            if r.returncode != 0:
+                return (entry, "STALE", f"patch {entry['patch']} does not apply: {(r.stdout + r.stderr)[:120]}")
         for (path, old, new) in entry["edits"]:
             p = os.path.join(copy, path)
             s = open(p).read()
